@@ -132,6 +132,12 @@ theorem tgood_save {c : Cfg} (httl : 0 < c.ttl) (t : TtlMap) (id : Nat) {g' : Na
   obtain ⟨h1, h2⟩ := save_facts httl t id
   exact tgood_nocounter h1 h2 hb (fun _ _ _ => ⟨rfl, hr⟩)
 
+/-- the state after the counter was deleted without a new result being stored (`backend.set` refused it) -/
+theorem tgood_reset {c : Cfg} {t : TtlMap} {g k : Nat} (h : TGood c t g k) {g' : Nat} (hb : g' ≤ c.hits)
+    (hr : g' = 0 ∨ AltB c g' 0) : TGood c (t.remove kAux) g' 0 := by
+  refine tgood_nocounter (wf2_remove_aux h.key) ?_ hb (fun _ _ _ => ⟨rfl, hr⟩)
+  rw [remove_m]; simp
+
 theorem tgood_advance {c : Cfg} {t : TtlMap} {g k : Nat} (h : TGood c t g k) (dt : Nat) :
     TGood c (advance t dt) g k := by
   have hc : ∀ st id, cached2 (advance t dt) = some (st, id) → cached2 t = some (st, id) := by
